@@ -610,7 +610,7 @@ macro_rules! interp {
                         let mut k = 0usize;
                         let ri = exec(0, || -> String {
                             let (len, cap) = (regs[r].len(), if w.len() > 2 { regs[r].len() + arg(2) } else { regs[r].capacity() });
-                            k = cap.saturating_sub(len).min(64);
+                            k = cap.saturating_sub(len).min(if w.len() > 2 { 1024 } else { 64 });   // an explicit promise is used up in full (up to 1024 pushes)
                             let mut b0 = vec![]; <T as Shape>::bases(&regs[r], &mut b0);
                             for j in 0..k { regs[r].push(<T as Shape>::make((j % 32) as u32)); }
                             let mut b1 = vec![]; <T as Shape>::bases(&regs[r], &mut b1);
@@ -717,6 +717,10 @@ macro_rules! interp {
                     "apply_index" => { let r = reg(w[1]); let idx = parse_list(w[3]);
                         (exec(0, || { match w[2] { "vec" => ::soa_derive::SoAVec::apply_index(&mut regs[r], &idx), _ => ::soa_derive::SoASliceMut::apply_index(&mut regs[r].as_mut_slice(), &idx) } }),
                          exec(1, || { gather(&mut mirs[r], &idx); })) }
+                    // apply_index_reuse r <index list>: through the SoASliceMut trait on a NAMED mutable slice, which is looked at again afterwards
+                    "apply_index_reuse" => { let r = reg(w[1]); let idx = parse_list(w[2]);
+                        (exec(0, || -> String { let mut sm = regs[r].as_mut_slice(); ::soa_derive::SoASliceMut::apply_index(&mut sm, &idx); format!("P{},Q{}", sm.len(), sm.iter().count()) }),
+                         exec(1, || -> String { gather(&mut mirs[r], &idx); format!("P{},Q{}", mirs[r].len(), mirs[r].iter().count()) })) }
                     // swap r a b  (SliceMut::swap)
                     "swap" => { let r = reg(w[1]);
                         (exec(0, || { regs[r].as_mut_slice().swap(arg(2), arg(3)); }), exec(1, || { mirs[r].swap(arg(2), arg(3)); })) }
